@@ -703,7 +703,7 @@ func (d *DNSFilter) processRewrites(host string, qtype uint16) (res Result) {
 // a valid hostChecker function.
 func matchBlockedServicesRules(
 	host string,
-	_ uint16,
+	qtype uint16,
 	setts *Settings,
 ) (res Result, err error) {
 	if !setts.ProtectionEnabled {
@@ -716,6 +716,8 @@ func matchBlockedServicesRules(
 	}
 
 	req := rules.NewRequestForHostname(host)
+	// Some of the rules are restricted to particular types of queries.
+	req.DNSType = qtype
 	for _, s := range svcs {
 		for _, rule := range s.Rules {
 			if rule.Match(req) {
